@@ -12,6 +12,7 @@ import (
 	"math"
 	"runtime"
 	"sort"
+	"sync"
 	"time"
 
 	"github.com/thanos-community/promql-engine/api"
@@ -240,7 +241,10 @@ type compatibilityQuery struct {
 	ts     time.Time // Empty for range queries.
 	t      QueryType
 
-	cancel context.CancelFunc
+	// cancelMu guards cancel: Cancel and Close may be called from other
+	// goroutines while Exec is running.
+	cancelMu sync.Mutex
+	cancel   context.CancelFunc
 }
 
 func (q *compatibilityQuery) Exec(ctx context.Context) (ret *promql.Result) {
@@ -253,7 +257,9 @@ func (q *compatibilityQuery) Exec(ctx context.Context) (ret *promql.Result) {
 
 	ctx, cancel := context.WithCancel(ctx)
 	defer cancel()
+	q.cancelMu.Lock()
 	q.cancel = cancel
+	q.cancelMu.Unlock()
 
 	resultSeries, err := q.Query.exec.Series(ctx)
 	if err != nil {
@@ -444,6 +450,8 @@ func (q *compatibilityQuery) Close() { q.Cancel() }
 func (q *compatibilityQuery) String() string { return q.expr.String() }
 
 func (q *compatibilityQuery) Cancel() {
+	q.cancelMu.Lock()
+	defer q.cancelMu.Unlock()
 	if q.cancel != nil {
 		q.cancel()
 		q.cancel = nil
